@@ -960,5 +960,181 @@ example :
     hpLocalhostOf (.text (bs "127.0.1.1 Zed\n")) = .ok [bs "localhost", bs "0.0.0.0", bs "::", bs "zed"] := by
   with_unfolding_all decide
 
+/-! ## J. Both serving paths (connection loop, `http.Handler`): the controls judge the host that would be dialled
+
+`ServerVariant` = how `HTTPProxy.Run` serves; `Completion` = when an empty `req.URL.Host` (origin-form target)
+is completed from the Host field: when the request is read (connection loop), never (handler: the transport then
+refuses the URL), or — the counter-model — after the request modifiers, right before the round trip. -/
+
+/-- for every target form (origin-form, absolute-form, CONNECT authority) and every serving path, the URL
+    host the four controls are evaluated on is the URL host the round trip (so the dial) would use -/
+theorem c04_controls_see_dialled_host (v : ServerVariant) (it : ConnItem) :
+    itemSeenHost v.completion it = itemTripHost v.completion it := by
+  cases it with
+  | req r =>
+    simp only [itemSeenHost, itemTripHost]
+    cases readRequest r with
+    | error e => rfl
+    | ok g0 => simp only [seen_eq_trip]
+  | connect c => rfl
+
+/-- … and a round trip that has a host to dial at all has the request's EFFECTIVE target (URL host, else
+    Host field): the controls judged exactly that host -/
+theorem c04_dialled_host_is_effective_target (v : ServerVariant) (g0 : GoReq)
+    (h : (v.completion.tripHost g0).isEmpty = false) :
+    v.completion.seenHost g0 = effectiveHost g0 ∧ v.completion.tripHost g0 = effectiveHost g0 :=
+  ⟨(seen_eq_trip v g0).trans (trip_eq_effective v g0 h), trip_eq_effective v g0 h⟩
+
+/-- whatever is dialled on behalf of an item, on either serving path, was let through by every enabled
+    control evaluated on the item's effective target -/
+theorem c04_dialled_item_passed_controls (v : ServerVariant) (cfg : Cfg) (ctx : Ctx) (it : ConnItem)
+    (h : itemActionsV v cfg ctx it ≠ []) :
+    ∃ hn pa, itemView it = some (hn, pa) ∧ firstFailing cfg hn pa = none := by
+  cases it with
+  | req r =>
+    simp only [itemActionsV, requestActionsV] at h
+    split at h
+    · exact absurd rfl h
+    · obtain ⟨g0, hr, hs, he⟩ := requestActionsAt_ne_nil h
+      refine ⟨_, _, requestView_of_read hr, ?_⟩
+      rw [seen_eq_trip, trip_eq_effective v g0 he, securityCheck_effective] at hs
+      cases hf : firstFailing cfg (hostname (effectiveHost g0)) (goGet g0.header (bs "Proxy-Authorization")) with
+      | none => rfl
+      | some c => rw [hf] at hs; cases hs
+  | connect q =>
+    simp only [itemActionsV, connectActionsV] at h
+    obtain ⟨hn, pa, hv, hf⟩ := connectActions_ne_nil h
+    exact ⟨hn, pa, hv, by rw [← firstFailing_connectCfg v]; exact hf⟩
+
+/-- the clause of the property for both serving paths: an item whose effective target (or whose credentials,
+    or the clock) fails an enabled control causes no upstream action, and it is refused or errors out — a
+    non-CONNECT request ends in a refusal or an error response of the proxy (on the handler path an origin-form
+    request is not shown to the host controls with its host: it gets the proxy's own error response instead of
+    the 403), a CONNECT is refused with the first failing control's status -/
+theorem c04_failing_item_silent_on_both_paths (v : ServerVariant) {cfg : Cfg} (ctx : Ctx) {it : ConnItem}
+    {hn pa : Bytes} {c : Control} (hv : itemView it = some (hn, pa)) (hf : firstFailing cfg hn pa = some c) :
+    itemActionsV v cfg ctx it = [] ∧
+      match it with
+      | .req r => (processRequestV v cfg ctx r).refusedOrError = true
+      | .connect q => processConnectV v cfg ctx q = .refused c.refusal.status c.refusal := by
+  constructor
+  · cases ha : itemActionsV v cfg ctx it with
+    | nil => rfl
+    | cons a as =>
+      obtain ⟨hn', pa', hv', hf'⟩ := c04_dialled_item_passed_controls v cfg ctx it (by rw [ha]; simp)
+      rw [hv] at hv'
+      simp only [Option.some.injEq, Prod.mk.injEq] at hv'
+      rw [← hv'.1, ← hv'.2, hf] at hf'
+      cases hf'
+  · cases it with
+    | req r => exact processRequestV_of_failing v ctx hv hf
+    | connect q =>
+      simp only [processConnectV]
+      exact processConnect_of_failing hv (by rw [firstFailing_connectCfg]; exact hf)
+
+/-- the connection loop of this section IS the validated request pipeline (`processRequest`,
+    `requestActions`) on every request that names a host at all -/
+theorem c04_conn_loop_is_pipeline (cfg : Cfg) (ctx : Ctx) {r : Request} {g0 : GoReq}
+    (hr : readRequest r = .ok g0) (hne : (effectiveHost g0).isEmpty = false) :
+    processRequestV .connLoop cfg ctx r = .served (processRequest cfg ctx r) ∧
+      requestActionsV .connLoop cfg ctx r = requestActions cfg ctx r := by
+  have h := processRequestAt_eq (k := .atRead) (cfg := cfg) (ctx := ctx) hr rfl rfl hne
+  simp only [processRequestV, requestActionsV, serverRejects, ServerVariant.completion]
+  exact h
+
+/-- the handler path runs the same pipeline on every request that carries its authority in the URL
+    (absolute-form) and that net/http's server lets through -/
+theorem c04_handler_with_url_host_is_pipeline (cfg : Cfg) (ctx : Ctx) {r : Request} {g0 : GoReq}
+    (hr : readRequest r = .ok g0) (hu : g0.urlHost.isEmpty = false) (hsrv : serverRejects .handler r = false) :
+    processRequestV .handler cfg ctx r = .served (processRequest cfg ctx r) ∧
+      requestActionsV .handler cfg ctx r = requestActions cfg ctx r := by
+  have he : effectiveHost g0 = g0.urlHost := by unfold effectiveHost; rw [hu]; rfl
+  have h := processRequestAt_eq (k := .never) (cfg := cfg) (ctx := ctx) hr he.symm he.symm (by rw [he]; exact hu)
+  simp only [processRequestV, requestActionsV, hsrv, ServerVariant.completion]
+  exact h
+
+/-- the handler path dials nothing for a request whose URL carries no host (origin-form), whatever its Host
+    field says and whatever the configuration is -/
+theorem c04_handler_without_url_host_dials_nothing (cfg : Cfg) (ctx : Ctx) {r : Request} {g0 : GoReq}
+    (hr : readRequest r = .ok g0) (hu : g0.urlHost.isEmpty = true) :
+    requestActionsV .handler cfg ctx r = [] ∧ (processRequestV .handler cfg ctx r).silent = true := by
+  have hnil : requestActionsAt .never cfg ctx r = [] := by
+    cases ha : requestActionsAt .never cfg ctx r with
+    | nil => rfl
+    | cons a as =>
+      obtain ⟨g0', hr', _, he⟩ := requestActionsAt_ne_nil (k := .never) (cfg := cfg) (ctx := ctx) (r := r) (by rw [ha]; simp)
+      rw [hr] at hr'
+      injection hr' with hr'
+      subst hr'
+      simp only [Completion.tripHost] at he
+      rw [hu] at he
+      cases he
+  refine ⟨by simp only [requestActionsV, ServerVariant.completion, hnil, ite_self], ?_⟩
+  unfold processRequestV
+  split
+  · rfl
+  · unfold requestActionsAt at hnil
+    simp only [ServerVariant.completion]
+    cases ho : processRequestAt .never cfg ctx r with
+    | serverRefused => rfl
+    | noHost => rfl
+    | served o =>
+      cases o with
+      | forwarded hop out =>
+        exfalso
+        unfold processRequestAt at ho
+        rw [hr] at ho
+        simp only [Completion.tripHost, hu, if_true] at ho
+        split at ho
+        · cases ho
+        · split at ho <;> first | cases ho | (rename_i hne _; injection ho with ho; exact hne _ _ ho)
+      | refused st w => rfl
+      | badRequest => rfl
+      | unreadable => rfl
+      | routeError => rfl
+
+def exLocalGet : Request :=
+  exGet "127.0.0.1:8080" [(bs "Proxy-Authorization", bs "Basic dXNlcjpwdw==")]
+
+/-- WITNESS (the host completed AFTER the controls ran): with `Completion.beforeRoundTrip` the controls see an
+    empty host for an origin-form request, the round trip uses the Host field — the request for `127.0.0.1:8080`
+    with the right credentials, which fails localhost denial on its effective target, is dialled there.
+    On the two real serving paths the same request is refused (403, connection loop) or gets the proxy's own
+    error response (handler), and nothing is dialled. -/
+theorem c04_host_completed_after_controls_witness :
+    requestView exLocalGet = some (bs "127.0.0.1", bs "Basic dXNlcjpwdw==") ∧
+    firstFailing exCfg (bs "127.0.0.1") (bs "Basic dXNlcjpwdw==") = some .localhost ∧
+    itemSeenHost .beforeRoundTrip (.req exLocalGet) = some [] ∧
+    itemTripHost .beforeRoundTrip (.req exLocalGet) = some (bs "127.0.0.1:8080") ∧
+    (requestActionsAt .beforeRoundTrip exCfg { clientIP := bs "10.0.0.1" } exLocalGet).map (·.hopAddr) = [bs "127.0.0.1:8080"] ∧
+    requestActionsV .connLoop exCfg { clientIP := bs "10.0.0.1" } exLocalGet = [] ∧
+    requestActionsV .handler exCfg { clientIP := bs "10.0.0.1" } exLocalGet = [] := by
+  with_unfolding_all decide
+
+-- the three target forms on the two paths: what the controls see / what the round trip would use
+example :
+    itemSeenHost ServerVariant.connLoop.completion (.req (exGet "LocalHost:81" [])) = some (bs "LocalHost:81") ∧
+    itemSeenHost ServerVariant.handler.completion (.req (exGet "LocalHost:81" [])) = some [] ∧
+    itemTripHost ServerVariant.handler.completion (.req (exGet "LocalHost:81" [])) = some [] ∧
+    itemSeenHost ServerVariant.handler.completion
+      (.req { exGet "other.example" [] with target := .absolute (bs "http") (bs "[::1]:81") }) = some (bs "[::1]:81") ∧
+    itemSeenHost ServerVariant.handler.completion (.connect { authority := bs "a.blocked.test:443" }) = some (bs "a.blocked.test:443") := by
+  with_unfolding_all decide
+
+-- the outcomes of one origin-form request for a loopback literal: 403 on the connection loop, the proxy's own
+-- error response on the handler path; an HTTP/1.1 request without Host field never reaches the handler
+example :
+    (match processRequestV .connLoop exCfg { clientIP := bs "10.0.0.1" } exLocalGet with
+      | .served (.refused 403 .localhost) => true | _ => false) = true ∧
+    (match processRequestV .handler exCfg { clientIP := bs "10.0.0.1" } exLocalGet with
+      | .noHost => true | _ => false) = true ∧
+    (match processRequestV .handler exCfg { clientIP := bs "10.0.0.1" }
+        { exLocalGet with target := .absolute (bs "http") (bs "127.0.0.1:8080") } with
+      | .served (.refused 403 .localhost) => true | _ => false) = true ∧
+    (match processRequestV .handler exCfg { clientIP := bs "10.0.0.1" }
+        { exLocalGet with target := .absolute (bs "http") (bs "origin.test"), fields := exLocalGet.fields.drop 1 } with
+      | .serverRefused => true | _ => false) = true := by
+  with_unfolding_all decide
+
 end C04
 end FwdVerif
